@@ -150,6 +150,46 @@ func (i *Informer) Relist(objs []runtime.Object) {
 	i.next = len(i.api.Log(i.res))
 }
 
+// Resync models a broken watch in a running informer: the undelivered events are lost, the informer lists again
+// and its handlers see the difference as client-go's Replace does - an add for every unknown object, an update for
+// every known one (whether it changed or not), and a DeletedFinalStateUnknown tombstone for every object that is gone.
+func (i *Informer) Resync(objs []runtime.Object) {
+	seen := map[string]bool{}
+	for _, o := range objs {
+		k, err := cache.MetaNamespaceKeyFunc(o)
+		if err != nil {
+			continue
+		}
+		seen[k] = true
+		old, ok, _ := i.indexer.GetByKey(k)
+		if ok {
+			_ = i.indexer.Update(o)
+		} else {
+			_ = i.indexer.Add(o)
+		}
+		i.snap[k] = o.DeepCopyObject()
+		for _, h := range i.handlers {
+			if ok {
+				h.OnUpdate(old, o)
+			} else {
+				h.OnAdd(o)
+			}
+		}
+	}
+	for _, old := range i.indexer.List() {
+		k, err := cache.MetaNamespaceKeyFunc(old)
+		if err != nil || seen[k] {
+			continue
+		}
+		_ = i.indexer.Delete(old)
+		delete(i.snap, k)
+		for _, h := range i.handlers {
+			h.OnDelete(cache.DeletedFinalStateUnknown{Key: k, Obj: old})
+		}
+	}
+	i.next = len(i.api.Log(i.res))
+}
+
 // ---- factories ----
 
 type Informers struct {
